@@ -3,7 +3,8 @@
 
    runtime.hpp (constructor, lines 66-103)                          here
    ------------------------------------------------------------    ---------------------------------------------------
-   spai0         mpi::relaxation::spai0(A)   (spai0.hpp:55-90)      rank_spai0: num = local entries with col == i,
+   spai0         mpi::relaxation::spai0(A)   (spai0.hpp:55-90)      rank_spai0: num = adjoint of local entries with col == i
+                                                                       (num += math::adjoint(v): repair of finding C06-spai0-no-conj),
                    den over the local AND the remote part             den = sum |v|^2 over local then remote entries
    chebyshev     relaxation::chebyshev(A)    A = the DISTRIBUTED    dist_cheby_setup: hi0 = the rank's element of
                    matrix: spectral_radius<scale>(A, power_iters)     Dist.dist_gershgorin (local + remote row sums,
@@ -52,7 +53,7 @@ Definition dist_apply (app : nat -> vec -> vec -> vec) (D : dmat) (fs xs : list 
 Definition rank_spai0_row (i : nat) (rl rr : row) : S :=
   let '(num, den) := fold_left (fun (nd : S * S) e =>
         let nv := sabs (snd e) in
-        (if Nat.eqb (fst e) i then fst nd + snd e else fst nd, snd nd + nv * nv)) rl (s0, s0) in
+        (if Nat.eqb (fst e) i then fst nd + sadj (snd e) else fst nd, snd nd + nv * nv)) rl (s0, s0) in
   let den' := fold_left (fun dn e => let nv := sabs (snd e) in dn + nv * nv) rr den in
   sinv den' * num.
 Definition rank_spai0 (M : rank_mat) : vec :=
